@@ -463,10 +463,11 @@ Definition reachable (g : list cnode) (start : nat) : list nat :=
 Definition tok_return (c : cnode) : token :=
   mktok (TSymbol «"return"») (rrange (node_raw (cn c))) (rfile (node_raw (cn c))).
 
-(* the replacement of an additional return by `jal x0, <return>` (fix: a name no source file can contain) *)
+(* the replacement of an additional return by `jal x0, <return>` (fix: a name no source file can contain;
+   fix: the new node keeps the replaced return's own place in the source, not the exit's) *)
 Definition rewritten_return (found exit_ : cnode) : pnode :=
   let info := tok_return found in
-  PJumpLink (mkw IJal info) (mkw 0%N info) (mkw «"<return>"» info) (node_raw (cn exit_)).
+  PJumpLink (mkw IJal info) (mkw 0%N info) (mkw «"<return>"» info) (node_raw (cn found)).
 
 (* `pick` is the index of the return the traversal meets first (hash-order dependent in the
    code); it must be one of the candidates, otherwise the first candidate is used *)
